@@ -258,6 +258,27 @@ def w_union_order():
         sq.close()
 
 
+def w_none_key():
+    import pandas
+    import sqlite3
+    import data_algebra.PostgreSQL
+    from data_algebra.sql_format_options import SQLFormatOptions
+    from data_algebra.view_representations import SQLNode
+
+    a = SQLNode(sql=["SELECT 1 AS k, 10 AS x"], column_names=["k", "x"], view_name="va")
+    c = SQLNode(sql=["SELECT 1 AS k, 20 AS x"], column_names=["k", "x"], view_name="vb")
+    ops = a.concat_rows(c, id_column=None)
+    m = data_algebra.PostgreSQL.PostgreSQLModel()
+    res = {}
+    for ce in (False, True):
+        conn = sqlite3.connect(":memory:")
+        res[ce] = sorted(pandas.read_sql_query(m.to_sql(ops, sql_format_options=SQLFormatOptions(use_cte_elim=ce)), conn)["x"].tolist())
+        conn.close()
+    if res[False] != res[True]:
+        return f"concat of two different SQL nodes: x = {res[False]} without CTE elimination, {res[True]} with use_cte_elim=True"
+    return None
+
+
 def w_cte_label():
     import pandas
     import data_algebra.PostgreSQL
@@ -285,7 +306,8 @@ def w_cte_label():
 
 
 WITNESSES = {"sqlite-order-limit-in-union-member-without-with": w_union_order,
-             "cte-reuse-ignores-terms-merged-into-step": w_cte_label}
+             "cte-reuse-ignores-terms-merged-into-step": w_cte_label,
+             "cte-reuse-shared-by-all-steps-without-a-key": w_none_key}
 
 
 def inconclusive(counters, sigs, tier):
